@@ -112,6 +112,49 @@ static void run_grid(T g, bool dense_only, bool do_contains, bool do_range, uint
     }
 }
 
+
+// (c) C14 over the whole coordinate width: for every bit position of every coordinate, a stored point and the absent point that differs
+// from it in exactly that bit (both directions: bit cleared / bit set), alone and next to a few small points; plus random wide points
+template<typename T>
+static void run_bits(bool do_contains, uint64_t seed) {
+    if (!do_contains) return;
+    const char *tag = sizeof(T) == 8 ? "MultidimensionalPGMIndex<2,uint64_t,4> one-bit neighbours" : "MultidimensionalPGMIndex<2,uint32_t,4> one-bit neighbours";
+    const int cbits = int(sizeof(T) * 8 / 2) - 1;     // coordinates accepted by the constructor: x < 2^cbits
+    std::mt19937_64 rng(seed);
+    auto check = [&](const std::vector<P2<T>> &pts, const std::vector<P2<T>> &queries) {
+        pgm::MultidimensionalPGMIndex<2, T, 4> idx(pts.begin(), pts.end());
+        std::set<P2<T>> ref(pts.begin(), pts.end());
+        for (auto &q : queries) {
+            ++cases;
+            bool want = ref.count(q) > 0, got = idx.contains(q);
+            if (want != got) {
+                std::string in = "[";
+                for (size_t i = 0; i < pts.size(); ++i) in += (i ? "," : "") + std::string("[") + std::to_string(std::get<0>(pts[i])) + "," + std::to_string(std::get<1>(pts[i])) + "]";
+                in += "]";
+                printf("{\"violation\": \"C14 contains((%llu,%llu)) returned %s, stored: %s\", \"input\": {\"config\": \"%s\", \"n\": %zu, \"points\": %s}}\n",
+                       (unsigned long long) std::get<0>(q), (unsigned long long) std::get<1>(q), got ? "true" : "false", want ? "yes" : "no", tag, pts.size(), in.c_str());
+                ++violations;
+                return false;
+            }
+        }
+        return true;
+    };
+    for (int b = 0; b < cbits; ++b)
+        for (int dim = 0; dim < 2; ++dim)
+            for (int variant = 0; variant < 3; ++variant) {
+                T bit = T(1) << b;
+                T bx = variant == 2 ? T(rng() & ((T(1) << cbits) - 1)) : T(variant * 5), by = variant == 2 ? T(rng() & ((T(1) << cbits) - 1)) : T(variant * 3);
+                P2<T> with = dim == 0 ? P2<T>{T(bx | bit), by} : P2<T>{bx, T(by | bit)};
+                P2<T> without = dim == 0 ? P2<T>{T(bx & ~bit), by} : P2<T>{bx, T(by & ~bit)};
+                for (int stored_with = 0; stored_with < 2; ++stored_with) {
+                    std::vector<P2<T>> pts{stored_with ? with : without};
+                    if (variant == 1) { pts.push_back({1, 1}); pts.push_back({2, 7}); pts.push_back({T((T(1) << cbits) - 1), T((T(1) << cbits) - 1)}); }
+                    ++distinct_cases;
+                    if (!check(pts, {with, without, {0, 0}, {T((T(1) << cbits) - 1), 0}})) return;
+                }
+            }
+}
+
 int main(int argc, char **argv) {
     std::string what = argc > 1 ? argv[1] : "all";
     std::string tier = argc > 2 ? argv[2] : "quick";
@@ -121,6 +164,8 @@ int main(int argc, char **argv) {
     int rounds = tier == "thorough" ? 12 : 3;
     run_grid<uint64_t>(64, false, c, r, seed, rounds);
     run_grid<uint32_t>(64, false, c, r, seed + 1, rounds);
+    run_bits<uint64_t>(c, seed + 7);
+    run_bits<uint32_t>(c, seed + 8);
     if (tier == "thorough") { run_grid<uint64_t>(128, true, false, r, seed + 2, 3); }
     printf("{\"summary\": {\"cases\": %ld, \"distinct\": %ld, \"exhaustive\": false}}\n", cases, distinct_cases);
     return violations ? 1 : 0;
